@@ -1,4 +1,5 @@
-// C01 - encode then decode returns the original packets (round trip through a fresh decoder).
+// C01 - encode then decode returns the original packets (round trip through a fresh decoder, or through one that was left with an
+// unfinished earlier message on the same endpoint: what a decoder saw before must not cost a packet of this transmission).
 #include "../common/gen_enc.h"
 
 using namespace vf;
@@ -21,6 +22,27 @@ static Verdict runCase(const EncCase& c, Info& info)
     auto frames = encodeVia(enc, batch, lib::DataContext{c.minB, c.maxB}, c.overload);
 
     lib::Decoder dec;
+    if (c.decoderSawUnfinished)
+    {
+        // an earlier transmission on this endpoint whose tail was lost: first segment (+ intermediaries), built by the
+        // independent wire builders, same version; whatever it yields is discarded
+        for (uint8_t k = 0; k < c.decoderSawUnfinished; ++k)
+        {
+            wire::MsgHdr mh;
+            mh.timestamp = 77;
+            mh.idWord = 5;
+            mh.flags = static_cast<uint8_t>((k == 0 ? wire::kSegFirst : wire::kSegMid) << 2);
+            mh.payloadType = 0x20;
+            Bytes chunk = fillBytes(k, 12);
+            mh.length = static_cast<uint16_t>(chunk.size());
+            Bytes frame;
+            wire::CmpHdr h{c.version, 0, c.dev, wire::kMtData, c.stream, static_cast<uint16_t>(40000 + k)};
+            wire::putCmpHdr(frame, h);
+            wire::putBytes(frame, wire::buildMessage(mh, chunk));
+            decodeOwned(dec, frame);
+        }
+        info.tag("decoder_left_with_an_unfinished_earlier_message");
+    }
     std::vector<std::shared_ptr<lib::Packet>> out;
     for (const auto& f : frames)
     {
@@ -81,7 +103,12 @@ int main(int argc, char** argv)
         EncGenParams p;
         p.maxBatch = tier ? 40 : 12;
         p.beyond16Bit = true;
-        return withPriorCalls(genEncCase(p), p);
+        return rc::gen::exec([p]() {
+            EncCase c = *withPriorCalls(genEncCase(p), p);
+            if (*range<int>(0, 3) == 0)
+                c.decoderSawUnfinished = *range<uint8_t>(1, 3);
+            return c;
+        });
     };
     prop.run = runCase;
     return pbtMain(argc, argv, prop);
